@@ -47,7 +47,7 @@ def generate(name, consts, wd, simulate=None, depth=None, seed=None, timeout=180
     return res
 
 
-def judge(prop, consts, records, wd, name, shards=8):
+def judge(prop, consts, records, wd, name, shards=8, module="JudgeStruct", fields=("id", "pre", "c", "res", "post")):
     """E3: TLC evaluates the property's predicate on every record.  Returns verdict dicts."""
     if not records:
         return []
@@ -62,8 +62,8 @@ def judge(prop, consts, records, wd, name, shards=8):
         part = parts[ix]
         path = os.path.join(wd, f"recs-{name}-{ix}.json")
         with open(path, "w") as f:
-            json.dump([{k: r[k] for k in ("id", "pre", "c", "res", "post")} for r in part], f)
-        r = tlc.run_tlc("JudgeStruct", text, wd, workers=1, tag=f"judge-{name}-{ix}",
+            json.dump([{k: r[k] for k in fields} for r in part], f)
+        r = tlc.run_tlc(module, text, wd, workers=1, tag=f"judge-{name}-{ix}",
                         env={"EG_RECORDS": path}, heap="3g")
         if r["distinct"] != len(part):
             raise Machinery(f"judge examined {r['distinct']} of {len(part)} records ({name}/{ix})")
